@@ -2,11 +2,23 @@
 from hypothesis import strategies as st
 
 
+def uniform(lo, hi):
+    """Uniform integer in [lo, hi]. st.integers() is heavily biased towards small magnitudes for wide ranges
+    (measured: 75 % of draws from [0, 2^256) are below 2^32), so wide uniform draws are built from bytes."""
+    span = hi - lo + 1
+    if span <= 1:
+        return st.just(lo)
+    if span <= 256:
+        return st.integers(lo, hi)
+    nb = (span.bit_length() + 7) // 8 + 8
+    return st.binary(min_size=nb, max_size=nb).map(lambda b: lo + int.from_bytes(b, "little") % span)
+
+
 def digit(W):
     B = 1 << W
     special = [0, 1, 2, 3, B - 1, B - 2, B >> 1, (B >> 1) - 1, (B >> 1) + 1, (1 << (W // 2)), (1 << (W // 2)) - 1,
                (1 << (W // 2)) + 1, int("55" * (W // 8), 16), int("AA" * (W // 8), 16)]
-    return st.one_of(st.sampled_from(special), st.integers(0, B - 1))
+    return st.one_of(st.sampled_from(special), uniform(0, B - 1))
 
 
 def lengths(maxd):
@@ -23,7 +35,7 @@ def magnitude(draw, W, maxd):
     top = 1 << (W * maxd)
     if kind == 0:
         n = draw(lengths(maxd))
-        return draw(st.integers(0, (1 << (W * n)) - 1)) if n else 0
+        return draw(uniform(0, (1 << (W * n)) - 1)) if n else 0
     if kind == 1:
         k = draw(st.integers(0, W * maxd - 1))
         d = draw(st.sampled_from([-2, -1, 0, 1, 2]))
@@ -95,7 +107,7 @@ def division_pair(draw, W, maxa, maxb):
         b = draw(g_int(W, maxb))
         nb = ndigits(b, W)
         q = draw(g_int(W, max(0, maxa - nb)))
-        r = draw(st.one_of(st.sampled_from([0, 1, max(0, abs(b) - 1)]), st.integers(0, max(0, abs(b) - 1))))
+        r = draw(st.one_of(st.sampled_from([0, 1, max(0, abs(b) - 1)]), uniform(0, max(0, abs(b) - 1))))
         a = q * b + (r if b > 0 else -r)
     elif kind == 4:
         # Knuth add-back family: divisor top digit B/2 (already normalised) followed by B-1 digits,
@@ -103,7 +115,7 @@ def division_pair(draw, W, maxa, maxb):
         nb = draw(st.integers(2, max(2, maxb)))
         na = draw(st.integers(nb, max(nb, maxa)))
         bd = [B - 1] * nb
-        bd[-1] = draw(st.sampled_from([B >> 1, (B >> 1) + 1, B - 1, 1, draw(st.integers(1, B - 1))]))
+        bd[-1] = draw(st.sampled_from([B >> 1, (B >> 1) + 1, B - 1, 1, draw(uniform(1, B - 1))]))
         bd[0] = draw(digit(W))
         ad = [draw(st.sampled_from([0, B - 1, 1])) for _ in range(na)]
         ad[-1] = draw(st.sampled_from([bd[-1], bd[-1] - 1, B - 1, max(1, bd[-1] >> 1)])) or 1
@@ -118,11 +130,11 @@ def division_pair(draw, W, maxa, maxb):
     elif kind == 5:
         # top digit of the running remainder equals top digit of the divisor (q-hat = B-1 branch)
         nb = draw(st.integers(2, max(2, maxb)))
-        t = draw(st.integers(1, B - 1))
-        rest_b = draw(st.integers(0, (1 << (W * (nb - 1))) - 1))
+        t = draw(uniform(1, B - 1))
+        rest_b = draw(uniform(0, (1 << (W * (nb - 1))) - 1))
         b = (t << (W * (nb - 1))) | rest_b
         na = draw(st.integers(nb, max(nb, maxa)))
-        rest_a = draw(st.integers(0, (1 << (W * (na - 1))) - 1))
+        rest_a = draw(uniform(0, (1 << (W * (na - 1))) - 1))
         a = (t << (W * (na - 1))) | rest_a
         if draw(st.booleans()):
             a = -a
@@ -192,9 +204,9 @@ def scalar(n, maxbits, lam=None):
         if kind <= 1:
             return draw(st.sampled_from(special))
         if kind == 2:
-            return draw(st.integers(0, n - 1))
+            return draw(uniform(0, n - 1))
         if kind == 3:
-            return -draw(st.integers(0, n - 1))
+            return -draw(uniform(0, n - 1))
         if kind == 4:
             i = draw(st.integers(0, maxbits - 1))
             return (1 << i) - draw(st.sampled_from([0, 1]))
@@ -213,7 +225,7 @@ def scalar(n, maxbits, lam=None):
             v = j * n + d
             return v if abs(v).bit_length() <= maxbits else n
         bits = draw(st.sampled_from(sorted({1, 8, 63, 64, 65, nb - 1, nb, min(nb + 1, maxbits), maxbits})))
-        v = draw(st.integers(0, (1 << bits) - 1))
+        v = draw(uniform(0, (1 << bits) - 1))
         return -v if draw(st.integers(0, 3)) == 0 else v
 
     return strat()
